@@ -286,3 +286,226 @@ func init() {
 		assumptions: commonAssumptions,
 	}
 }
+
+func init() {
+	checkTable["C13"] = &checkSpec{
+		needEnd: true,
+		jobs: func(tier string) []*Job {
+			var js []*Job
+			add := func(tpl, nk, cfg, skip, cs int) {
+				js = append(js, &Job{Module: "mcap", Harness: "VC13MapOrder", Params: P("tpl", tpl, "nk", nk, "cfg", cfg, "skip", skip, "cs", cs), TimeoutS: 1200})
+			}
+			if tier == "quick" {
+				add(0, 3, 3, 0, 1000)
+				add(0, 2, 2, 0, 1000)
+				add(1, 3, 3, 0, 1000)
+				add(2, 2, 3, 0, 1)
+				add(2, 2, 2, 0, 1000)
+				return js
+			}
+			for tpl := 0; tpl <= 3; tpl++ {
+				for _, nk := range []int{2, 3} {
+					for _, c := range [][2]int{{3, 1}, {3, 40}, {3, 1000}, {2, 1000}, {1, 1}} {
+						if tpl == 3 && nk == 3 {
+							continue
+						}
+						add(tpl, nk, c[0], 0, c[1])
+					}
+				}
+			}
+			return js
+		},
+		bounds: map[string]any{
+			"quick":    map[string]any{"workloads": "4 mixes (channel metadata map / Metadata record / two channels + metadata / schema + three channels over several chunks)", "map_entries": "2-3 per map, symbolic one-byte keys and values (so equal keys and every key order are included)", "iteration_orders": "every permutation of every range over a map, in the writer and in everything it calls", "options": "chunked (chunk size 1/40/1000) and unchunked, CRC on/off"},
+			"thorough": map[string]any{"workloads": "as quick x map sizes 2,3 x 5 option sets"},
+		},
+		outside:     append([]string{"independence from GOMAXPROCS, from other goroutines and from concurrent writer/reader instances, and race-freedom: the engine has no scheduler model and the code in scope starts no goroutine (zstd, which does, is outside) - this clause of C13 is NOT decided", "maps with more than 3 entries"}, outsideCommon...),
+		assumptions: commonAssumptions,
+	}
+	checkTable["C14"] = &checkSpec{
+		needEnd: true,
+		jobs: func(tier string) []*Job {
+			var js []*Job
+			smax := 9
+			if tier == "quick" {
+				smax = 2
+			}
+			add := func(tpl, cfg, skip, cs, klo, khi int) {
+				js = append(js, &Job{Module: "mcap", Harness: "VC14Sink", Params: P("tpl", tpl, "ln", 1, "pn", 2, "cfg", cfg, "skip", skip, "cs", cs, "klo", klo, "khi", khi, "smax", smax), TimeoutS: 1200})
+			}
+			adda := func(dn, mode, cfg int) {
+				js = append(js, &Job{Module: "mcap", Harness: "VC14AttachmentSource", Params: P("dn", dn, "mode", mode, "cfg", cfg), TimeoutS: 600})
+			}
+			if tier == "quick" {
+				for _, tc := range [][3]int{{5, 3, 1}, {6, 2, 1000}, {6, 3, 1}} {
+					for klo := 0; klo < 64; klo += 8 {
+						add(tc[0], tc[1], 0, tc[2], klo, klo+8)
+					}
+				}
+				adda(3, 0, 2)
+				adda(3, 1, 2)
+				adda(0, 1, 3)
+				return js
+			}
+			for _, tpl := range []int{1, 3, 4, 5, 6, 7} {
+				for _, c := range [][2]int{{3, 1}, {3, 1000}, {2, 1000}, {1, 60}, {0, 1000}, {7, 1}} {
+					for klo := 0; klo < 96; klo += 8 {
+						add(tpl, c[0], 0, c[1], klo, klo+8)
+					}
+				}
+			}
+			for _, dn := range []int{0, 1, 3, 8} {
+				for mode := 0; mode <= 1; mode++ {
+					for cfg := 0; cfg <= 3; cfg++ {
+						adda(dn, mode, cfg)
+					}
+				}
+			}
+			return js
+		},
+		bounds: map[string]any{
+			"quick":    map[string]any{"workloads": "T5 chunked, T6 chunked and unchunked (one chunk per message), CRC on", "fault": "index k of the failing destination write symbolic over 0..63 (8 cells of 8; every workload makes fewer than 64 writes - beyond the last write the run must equal the reference), bytes accepted by the failing write symbolic 0..min(len,2) (thorough: 9, every split of a record header), sticky or transient symbolic", "attachment_source": "3-byte attachment: source error after symbolic j<=3 bytes; declared size symbolic != true size (64 bit)"},
+			"thorough": map[string]any{"workloads": "T1,T3,T4,T5,T6,T7 x 6 option sets", "fault": "k over 0..95 in cells of 8", "attachment_source": "data length 0,1,3,8 x 4 option sets"},
+		},
+		outside:     append([]string{"a destination that returns a short count with a nil error (violates io.Writer's contract)", "zstd/lz4 compressors' own buffering"}, outsideCommon...),
+		assumptions: commonAssumptions,
+	}
+}
+
+func init() {
+	checkTable["C09"] = &checkSpec{
+		needEnd: true,
+		jobs: func(tier string) []*Job {
+			var js []*Job
+			add := func(tpl, cfg, cs, validate, max int) {
+				for lo := 0; lo < max; lo += 16 {
+					for rd := 0; rd <= 1; rd++ {
+						if rd == 1 && cfg&4 != 0 {
+							continue // the Reader API offers no way to pass a custom decompressor
+						}
+						js = append(js, &Job{Module: "mcap", Harness: "VC09Cut", Params: P("tpl", tpl, "cfg", cfg, "cs", cs, "validate", validate, "lo", lo, "hi", lo+16, "rd", rd), TimeoutS: 1200})
+					}
+				}
+			}
+			if tier == "quick" {
+				add(5, 3, 1, 1, 512)
+				add(6, 2, 1000, 0, 400)
+				return js
+			}
+			for _, tpl := range []int{1, 5, 6, 7} {
+				for _, c := range [][3]int{{3, 1, 0}, {3, 1, 1}, {3, 1000, 1}, {2, 1000, 0}, {7, 1, 1}, {1, 60, 0}} {
+					add(tpl, c[0], c[1], c[2], 640)
+				}
+			}
+			return js
+		},
+		bounds: map[string]any{
+			"quick":    map[string]any{"files": "T5 chunked (one chunk per message, CRC, validating lexer) and T6 unchunked (with an attachment and a metadata record)", "cut": "cut position L symbolic, the range 0..len(file)-1 partitioned into cells of 16 bytes (one job per cell; the union is every position)", "symbolic": "L, every field value and byte of the file", "readers": "lexer with attachment callback; non-indexed message iterator"},
+			"thorough": map[string]any{"files": "T1,T5,T6,T7 x 6 option sets (chunk sizes 1/60/1000, CRC on/off, xor codec, validating or not)", "cut": "as quick"},
+		},
+		outside:     append([]string{"files longer than 640 bytes"}, outsideCommon...),
+		assumptions: commonAssumptions,
+	}
+}
+
+func init() {
+	checkTable["C15"] = &checkSpec{
+		needEnd: true,
+		jobs: func(tier string) []*Job {
+			var js []*Job
+			frag := func(tpl, cfg, cs, validate, rd, mode int, extra ...any) {
+				kv := append([]any{"tpl", tpl, "cfg", cfg, "cs", cs, "validate", validate, "rd", rd, "mode", mode}, extra...)
+				js = append(js, &Job{Module: "mcap", Harness: "VC15Frag", Params: P(kv...), TimeoutS: 1200})
+			}
+			errj := func(tpl, cfg, cs, validate, rd, with, max int) {
+				for lo := 0; lo < max; lo += 16 {
+					js = append(js, &Job{Module: "mcap", Harness: "VC15Err", Params: P("tpl", tpl, "cfg", cfg, "cs", cs, "validate", validate, "rd", rd, "lo", lo, "hi", lo+16, "with", with), TimeoutS: 1200})
+				}
+			}
+			type fc struct{ tpl, cfg, cs, validate int }
+			files := []fc{{5, 3, 1, 1}}
+			rds := []int{0, 1, 2, 3}
+			jmax, kmax := 96, 9
+			if tier == "thorough" {
+				files = []fc{{5, 3, 1, 1}, {5, 3, 1, 0}, {6, 3, 1000, 1}, {6, 2, 1000, 0}, {7, 3, 1, 0}, {1, 1, 60, 0}, {5, 7, 1, 1}}
+				rds = []int{0, 1, 2, 3, 4}
+				jmax = 160
+			}
+			for _, f := range files {
+				for _, rd := range rds {
+					if f.cfg&4 != 0 && rd != 0 {
+						continue // the Reader API offers no way to pass a custom decompressor
+					}
+					for jlo := 0; jlo < jmax; jlo += 8 {
+						frag(f.tpl, f.cfg, f.cs, f.validate, rd, 0, "jlo", jlo, "jhi", jlo+8, "kmax", kmax)
+					}
+					for _, mr := range []int{1, 2, 5} {
+						frag(f.tpl, f.cfg, f.cs, f.validate, rd, 1, "mr", mr)
+					}
+					frag(f.tpl, f.cfg, f.cs, f.validate, rd, 2, "mr", 0)
+					frag(f.tpl, f.cfg, f.cs, f.validate, rd, 2, "mr", 3)
+					if tier == "quick" {
+						errj(f.tpl, f.cfg, f.cs, f.validate, rd, rd%2, 512)
+					} else {
+						errj(f.tpl, f.cfg, f.cs, f.validate, rd, 0, 640)
+						errj(f.tpl, f.cfg, f.cs, f.validate, rd, 1, 640)
+					}
+				}
+			}
+			return js
+		},
+		bounds: map[string]any{
+			"quick":    map[string]any{"file": "T5 chunked (one chunk per message, CRC on), validating lexer", "readers": "lexer; non-indexed iterator; indexed iterator in file order and in log-time order", "fragmentation": "one short read at symbolic read-call index J (0..95, cells of 8; beyond the last call the run is the plain one) returning symbolic K bytes (1..9: every split of a 9-byte record header); every read limited to 1, 2, 5 bytes; final bytes delivered together with io.EOF", "io_error": "sticky error at symbolic byte position E (cells of 16 over the whole file), delivered on its own call or together with the last good bytes", "symbolic": "J, K, E, every field value and byte of the file"},
+			"thorough": map[string]any{"files": "T1,T5,T6,T7 under 7 option sets (incl. xor codec, unchunked, non-validating)", "readers": "as quick + reverse log-time order", "fragmentation": "J over 0..159", "io_error": "both delivery forms at every position"},
+		},
+		outside:     append([]string{"a one-shot (non-sticky) error delivered together with the last bytes a ReadFull needs: io.ReadAtLeast drops it by specification", "more than one short read per run (the every-read-limited schedules cover repeated fragmentation)", "Seek failures"}, outsideCommon...),
+		assumptions: commonAssumptions,
+	}
+}
+
+func init() {
+	checkTable["C07"] = &checkSpec{
+		needEnd: true,
+		jobs: func(tier string) []*Job {
+			var js []*Job
+			ch := func(tpl, cfg, cs, chunk int) {
+				js = append(js, &Job{Module: "mcap", Harness: "VC07Chunk", Params: P("tpl", tpl, "cfg", cfg, "cs", cs, "chunk", chunk), TimeoutS: 900})
+			}
+			at := func(ln, dn, cfg, part int) {
+				js = append(js, &Job{Module: "mcap", Harness: "VC07Attachment", Params: P("ln", ln, "dn", dn, "cfg", cfg, "part", part), TimeoutS: 600})
+			}
+			tpls := []int{5, 6}
+			if tier == "thorough" {
+				tpls = []int{1, 2, 5, 6}
+			}
+			for _, tpl := range tpls {
+				for _, cfg := range []int{3, 7} {
+					for c := 0; c < 4; c++ {
+						ch(tpl, cfg, 1, c)
+					}
+					ch(tpl, cfg, 1000, 0)
+					if tier == "thorough" {
+						ch(tpl, cfg, 60, 0)
+						ch(tpl, cfg, 60, 1)
+					}
+				}
+			}
+			for part := 0; part <= 3; part++ {
+				at(1, 3, 2, part)
+				at(1, 3, 3, part)
+				if tier == "thorough" {
+					at(3, 8, 2, part)
+					at(0, 1, 2, part)
+					at(1, 0, 3, part)
+				}
+			}
+			return js
+		},
+		bounds: map[string]any{
+			"quick":    map[string]any{"chunk_files": "T5, T6 with CRC on: one chunk per message (each of the first 4 chunks damaged in turn) and one chunk for everything; none and xor codec", "damage": "EVERY byte of the damaged chunk's stored payload replaced by a fresh symbolic byte at once (assumed not identical to the original): covers all bit flips, overwrites and same-length swaps inside the payload", "lexer": "ValidateChunkCRCs on, EmitInvalidChunks symbolic", "attachments": "name/media type 1 byte, data 3 bytes; times, name, data or all CRC-covered value bytes replaced by symbolic bytes; ComputeAttachmentCRCs on"},
+			"thorough": map[string]any{"chunk_files": "T1,T2,T5,T6; chunk sizes 1/60/1000", "attachments": "three length classes"},
+		},
+		outside:     append([]string{"alterations that change a stored length field (payload length, string lengths)", "damage to chunk header fields other than the payload"}, outsideCommon...),
+		assumptions: append([]string{"ideal checksum: equality of two CRC values is taken to hold exactly when the byte sequences fed are equal (true for CRC-32 for every burst up to 32 bits; probability 1-2^-32 otherwise)", "the stored chunk CRC is non-zero (zero means 'not available' and switches validation off by specification)"}, commonAssumptions...),
+	}
+}
